@@ -14,7 +14,42 @@ From VV Require Import Base.F64 Mep.Genome Lang.LangBase Gen.Templates Lang.Lang
 Import ListNotations.
 Local Open Scope Z_scope.
 
-Inductive cval := CD (x : f64) | CB (b : bool).
+(* a double, the int of an integer literal / integer arithmetic, or the truth
+   value of a comparison *)
+Inductive cval := CD (x : f64) | CI (z : Z) | CB (b : bool).
+
+(* an integer literal of the C grammar: digits only (a floating literal has a
+   '.' or an exponent and is read by strtod) *)
+Fixpoint int_digits (acc : Z) (w : bytes) : option Z :=
+  match w with
+  | [] => Some acc
+  | c :: r => if is_digit c then int_digits (10 * acc + (c - 48)) r else None
+  end.
+Definition int_lit (w : bytes) : option Z := match w with [] => None | _ => int_digits 0 w end.
+
+Definition in_int (z : Z) : bool := (-2147483648 <=? z) && (z <=? 2147483647).
+Definition ci (z : Z) : option cval := if in_int z then Some (CI z) else None.   (* signed overflow: undefined *)
+
+(* the usual arithmetic conversions: int op int is integer arithmetic (7/2 is 3),
+   otherwise both operands are converted to double *)
+Definition arith2 (fd : f64 -> f64 -> f64) (fi : Z -> Z -> option Z) (a b : cval) : option cval :=
+  match a, b with
+  | CI x, CI y => match fi x y with Some z => ci z | None => None end
+  | CD x, CD y => Some (CD (fd x y))
+  | CI x, CD y => Some (CD (fd (F64.of_Z x) y))
+  | CD x, CI y => Some (CD (fd x (F64.of_Z y)))
+  | _, _ => None
+  end.
+Definition cmp2 (cd : f64 -> f64 -> bool) (a b : cval) : option cval :=
+  match a, b with
+  | CD x, CD y => Some (CB (cd x y))
+  | CI x, CD y => Some (CB (cd (F64.of_Z x) y))
+  | CD x, CI y => Some (CB (cd x (F64.of_Z y)))
+  | CI x, CI y => Some (CB (cd (F64.of_Z x) (F64.of_Z y)))
+  | _, _ => None
+  end.
+Definition to_double (a : cval) : option f64 :=
+  match a with CD x => Some x | CI z => Some (F64.of_Z z) | CB _ => None end.
 
 Definition N_fabs : bytes := [102; 97; 98; 115].
 Definition N_sqrt : bytes := [115; 113; 114; 116].
@@ -40,11 +75,11 @@ Definition bin_fun (fn : bytes) : option (f64 -> f64 -> f64) :=
   else if bytes_eqb fn N_fmin then Some F64.fmin
   else None.
 
-Definition arith (op : tok) : option (f64 -> f64 -> f64) :=
-  if tok_eqb op (p1 43) then Some F64.add
-  else if tok_eqb op (p1 45) then Some F64.sub
-  else if tok_eqb op (p1 42) then Some F64.mul
-  else if tok_eqb op (p1 47) then Some F64.div
+Definition arith (op : tok) : option (cval -> cval -> option cval) :=
+  if tok_eqb op (p1 43) then Some (arith2 F64.add (fun x y => Some (x + y)))
+  else if tok_eqb op (p1 45) then Some (arith2 F64.sub (fun x y => Some (x - y)))
+  else if tok_eqb op (p1 42) then Some (arith2 F64.mul (fun x y => Some (x * y)))
+  else if tok_eqb op (p1 47) then Some (arith2 F64.div (fun x y => if y =? 0 then None else Some (Z.quot x y)))
   else None.
 Definition compare (op : tok) : option (f64 -> f64 -> bool) :=
   if tok_eqb op (p1 60) then Some F64.ltb
@@ -58,22 +93,33 @@ Fixpoint denote (h : nat -> option cval) (e : cexpr) : option cval :=
   match e with
   | EAtom w =>
       if bytes_eqb w N_eps then Some (CD dbl_eps)
-      else match lit w with
-           | Some v => Some (CD v)
-           | None => match rho w with Some v => Some (CD v) | None => None end
+      else match int_lit w with
+           | Some z => ci z
+           | None =>
+               match lit w with
+               | Some v => Some (CD v)
+               | None => match rho w with Some v => Some (CD v) | None => None end
+               end
            end
   | EStr _ => None
   | EHole k => h k
   | ECall0 _ => None
   | ECall (EAtom fn) a =>
       match un_fun fn with
-      | Some g1 => match denote h a with Some (CD x) => Some (CD (g1 x)) | _ => None end
+      | Some g1 => match denote h a with
+                   | Some v => match to_double v with Some x => Some (CD (g1 x)) | None => None end
+                   | None => None
+                   end
       | None =>
           match bin_fun fn, a with
           | Some g2, EBin op l r =>
               if tok_eqb op (p1 44) then
                 match denote h l, denote h r with
-                | Some (CD x), Some (CD y) => Some (CD (g2 x y))
+                | Some u, Some v =>
+                    match to_double u, to_double v with
+                    | Some x, Some y => Some (CD (g2 x y))
+                    | _, _ => None
+                    end
                 | _, _ => None
                 end
               else None
@@ -83,19 +129,27 @@ Fixpoint denote (h : nat -> option cval) (e : cexpr) : option cval :=
   | ECall _ _ => None
   | EMem _ _ => None
   | EUn op x =>
-      if tok_eqb op (p1 45) then match denote h x with Some (CD v) => Some (CD (F64.neg v)) | _ => None end
+      if tok_eqb op (p1 45) then
+        match denote h x with
+        | Some (CD v) => Some (CD (F64.neg v))
+        | Some (CI z) => ci (- z)
+        | _ => None
+        end
       else None
-  | ECast x => match denote h x with Some (CD v) => Some (CD v) | _ => None end
+  | ECast x => match denote h x with
+               | Some v => match to_double v with Some d => Some (CD d) | None => None end
+               | None => None
+               end
   | EBin op l r =>
       match arith op with
       | Some g2 => match denote h l, denote h r with
-                   | Some (CD x), Some (CD y) => Some (CD (g2 x y))
+                   | Some x, Some y => g2 x y
                    | _, _ => None
                    end
       | None =>
           match compare op with
           | Some c2 => match denote h l, denote h r with
-                       | Some (CD x), Some (CD y) => Some (CB (c2 x y))
+                       | Some x, Some y => cmp2 c2 x y
                        | _, _ => None
                        end
           | None =>
@@ -204,7 +258,6 @@ Section Proof.
 Variable lit : bytes -> option f64.
 Variable rho : bytes -> option f64.
 Variable env : lang_env.
-Hypothesis lit_2 : lit [50] = Some two.            (* strtod("2") = 2.0 *)
 
 Local Opaque F64.add F64.sub F64.mul F64.div F64.fmod F64.fmax F64.fmin F64.floor F64.abs F64.sqrt
   F64.ltb F64.gtb F64.leb F64.geb F64.neg F64.is_finite F64.of_bits F64.of_Z.
@@ -258,13 +311,13 @@ Proof.
     all: match goal with |- context [tmpl_ast ?g ?n ?tm] =>
            let a := eval vm_compute in (tmpl_ast g n tm) in
            replace (tmpl_ast g n tm) with a by (vm_compute; reflexivity) end.
-    all: cbn; rewrite ?lit_2.
+    all: cbn.
     all: repeat match goal with
          | Hk : forall r, eval_frag rho env ?k = Some r -> _ |- _ =>
              let E := fresh "E" in
              destruct (eval_frag rho env k) eqn:E; [rewrite (Hk _ eq_refl)|]; clear Hk
          end.
-    all: cbn in He; cbn; unfold guard, issmall in He.
+    all: cbn in He; cbn; unfold guard, issmall, two in He.
     all: try discriminate He.
     all: repeat match type of He with
          | context [if ?b then _ else _] => destruct b eqn:?
